@@ -3,7 +3,7 @@ import ShootVerif.Spec.Ctor
 namespace ShootVerif.Drive
 open ShootVerif.Ctor
 
-/-- members: `(f name ptype [new] [skip] [(def "e")])` | `(e name ty ptr|val new|nonew (body M…))` -/
+/-- members: `(f name ptype [new] [skip] [hasdoc] [get] [set] [(def "e")])` | `(e name ty ptr|val new|nonew (body M…))` -/
 partial def parseMembers : List Sexp → Option Tree
   | [] => some .nil
   | m :: rest => do
@@ -14,7 +14,8 @@ partial def parseMembers : List Sexp → Option Tree
       let defv := match o.field? "def" with
         | some (.list [_, .atom e]) => e
         | _ => ""
-      some (.field { name := name, ptype := pty, newMark := o.hasFlag "new", skip := o.hasFlag "skip", defv := defv } r)
+      some (.field { name := name, ptype := pty, newMark := o.hasFlag "new", skip := o.hasFlag "skip", defv := defv,
+                     hasDoc := o.hasFlag "hasdoc", get := o.hasFlag "get", set := o.hasFlag "set" } r)
     | .list [.atom "e", .atom name, .atom ty, .atom p, .atom nm, .list (.atom "body" :: ms)] => do
       let b ← parseMembers ms
       some (.embed name ty (p == "ptr") (nm == "new") b r)
